@@ -72,7 +72,13 @@ static size_t CAP;
  * loop head.  In the native replay the instance is evaluated (exit 77 if it were ever false). */
 size_t g_k;
 ELEM g_old_k;      /* content of slot g_k of the object under test before the call (set by the harness) */
+#if VC_FALLBACK
+/* ghost-free bounded fallback (units/README.md): the state is fully concrete there (c14_harness.h builds every slot), the
+ * instances are not needed, and an instance placed in a loop whose shape has changed must not cut paths */
+#define G_INST(c) ((void)0)
+#else
 #define G_INST(c) __CPROVER_assume(c)
+#endif
 
 /* SV(v), stated for one slot k (ghost index):  m_size <= N, slot k LIVE below m_size and RAW from m_size on */
 #define SV_SIZE_OK(v) ((v)->m_size <= CAP)
